@@ -21,7 +21,7 @@ RULE = ("C: random call sets x random sample lists (subset, listing order, 1-4 l
         "stdout. L1: 2-9 labels drawn from 1-2 character names, shape and axis assignment probed with one record. Non-trivial: >=2 populations "
         "of unequal size or order-sensitive counts; distinct = digest(codes, list).")
 ASSUMPTIONS = ["sample names avoid the list syntax characters ',', '=' and tab", "integer counts: exact comparison"]
-FLOORS = {"quick": {"evaluations": 2500, "distinct_nontrivial": 400, "counts": {"C_base": 250, "C_twin_runs": 1000, "L1_maps": 2000, "C_huge_cohort_runs": 2}},
+FLOORS = {"quick": {"evaluations": 2500, "distinct_nontrivial": 400, "counts": {"C_base": 250, "C_twin_runs": 1000, "L1_maps": 2000, "C_huge_cohort_runs": 2, "both_builds_short_records": 100}},
           "thorough": {"evaluations": 60000, "distinct_nontrivial": 10000, "counts": {"C_base": 8000, "C_twin_runs": 30000, "L1_maps": 50000}}}
 NSHARD = 32
 
@@ -396,10 +396,32 @@ def check_C_huge_cohort(S, p):
     S.case(key=digest(["huge", na, nb, S.seed]), nontrivial=True)
 
 
+def check_L1_short_records(S, p):
+    """Listed samples whose column the genotype reader does not deliver (a record with fewer genotypes than the reader has samples):
+    only what was delivered may be looked at - the release and the checked build answer alike, nothing panics."""
+    rng = rng_for(S.seed, "c09", p["name"], "short")
+    reqs = []
+    for _ in range(5):
+        ns = rng.randint(3, 8)
+        samples = ["s%d" % j for j in range(ns)]
+        listed = rng.sample(samples, rng.randint(2, ns))
+        if samples[-1] not in listed:
+            listed.append(samples[-1])              # a listed sample among the columns that go missing
+        smap = [(s_, rng.choice(["A", "B", None])) for s_ in listed]
+        recs = ["".join(str(rng.choice([0, 1, 2])) for _ in range(ns))[:rng.choice([ns, ns - 1, ns - 2, 0, 1])] for _ in range(5)]
+        reqs.append({"op": "site_hist", "samples": samples, "map": E.map_json(smap), "project": None, "records": recs, "fresh": False, "after_error": "continue"})
+    res = harness.both_builds(S, "C09", reqs, "short_records")
+    for q, r in zip(reqs, res):
+        if "panic" in r or r.get("died"):
+            S.viol("C09:short-record:panic", "[L1 records %r for %d samples] %s" % (q["records"], len(q["samples"]), str(r)[:200]), {"level": "L1", "request": q})
+        S.case(key=digest([q["records"], q["map"], "short"]), nontrivial=True)
+
+
 def shard(S, p):
     if "replay" in p:
         S.inconc("witness carries argv + input for manual replay")
         return
+    check_L1_short_records(S, p)
     if p["i"] % 16 == 3:
         check_C_huge_cohort(S, p)
     check_L1(S, p)
